@@ -986,6 +986,22 @@ class PackageGenerator:
             mp.all_classes += ["Grid", "GridView"]
             mp.public_classes += ["Grid", "GridView"]
 
+        # everyday shapes that once aborted the tool (added last, no random draws): an enum with a method and a property, and
+        # a constructor that fills a container attribute element by element and unpacks into starred / nested targets
+        me_ = self.new_module(top, "everyday_shapes")
+        me_.add_import("from enum import Enum")
+        me_.body.append("class Mode(Enum):\n    FAST = 1\n    SLOW = 2\n\n    def describe(self) -> str:\n        return self.name\n\n"
+                        "    @property\n    def is_fast(self) -> bool:\n        return self is Mode.FAST\n")
+        me_.body.append("class Registry:\n    defaults = {}\n    defaults[\"mode\"] = 1\n\n    def __init__(self, items: list[int]) -> None:\n"
+                        "        self.table = {}\n        self.table[\"first\"] = items\n        self.head, *self.rest = items\n"
+                        "        (self.low, self.high), self.count = (0, 1), len(items)\n")
+        # ... and a class whose comparison methods are completed by functools.total_ordering (generated by a mypy plugin)
+        me_.add_import("import functools")
+        me_.body.append("@functools.total_ordering\nclass Version:\n    def __init__(self, major: int = 0) -> None:\n        self.major = major\n\n"
+                        "    def __eq__(self, other: object) -> bool:\n        return True\n\n    def __lt__(self, other: \"Version\") -> bool:\n        return False\n")
+        me_.all_classes += ["Registry", "Version"]
+        me_.public_classes += ["Registry", "Version"]
+
         # --- files
         files: dict[str, str] = {}
         for pk, lines in self.inits.items():
